@@ -8,7 +8,8 @@
               rangeKind/lo/hi: "dispatched_ports" of the topology ("empty" = "-", "all", "range");
               ovLo/ovHi: override of the router configuration (-1 = none);
               rangeVsInternal: whether SetPortRange came "before" or "after" AddInternalInterface
-     deliver  kind cut field dst disp egress port addr want inst
+     deliver  kind ext cut field dst disp egress port addr want inst      (ext: extension headers in
+              front of layer 4: "none" | "hbh" | "e2e" | "hbh+e2e"; the allowed ports do not depend on it)
               the packet (kind, carried port / identifier, "ip" | "svc-..."), what the fast path did
               with it and the underlay (addr, port) the internal link resolved; want: the host
               address for "ip"; inst: the registered "addr:port" instances for a service
@@ -26,7 +27,7 @@ R == Trace[l]
 
 Init == rng = <<0, 0>> /\ rel = "-" /\ l = 1 /\ ndel = 0 /\ drifted = {}
 
-Bad(key) == PrintT(<<"VERIF-BAD", l, key>>)
+Bad(key) == PrintT(<<"VERIF-BAD", l, key \o (IF R.ev = "deliver" /\ R.ext # "none" THEN ":" \o R.ext ELSE "")>>)
 Drift(key) == /\ drifted' = drifted \cup {key}
               /\ key \notin drifted => PrintT(<<"VERIF-DRIFT", l, key>>)
 
